@@ -16,6 +16,11 @@ static PEAK: AtomicUsize = AtomicUsize::new(0);
 
 unsafe impl GlobalAlloc for Counting {
     unsafe fn alloc(&self, l: Layout) -> *mut u8 {
+        if l.size() > (1usize << 34) {
+            // a request of more than 16 GiB would abort the process (or succeed as untouched virtual memory):
+            // report the case in progress as the failing input instead
+            crate::report_huge_alloc(l.size());
+        }
         let p = System.alloc(l);
         if !p.is_null() {
             let c = CUR.fetch_add(l.size(), Ordering::Relaxed) + l.size();
@@ -28,6 +33,9 @@ unsafe impl GlobalAlloc for Counting {
         System.dealloc(p, l)
     }
     unsafe fn realloc(&self, p: *mut u8, l: Layout, n: usize) -> *mut u8 {
+        if n > (1usize << 34) {
+            crate::report_huge_alloc(n);
+        }
         let q = System.realloc(p, l, n);
         if !q.is_null() {
             if n >= l.size() {
@@ -241,7 +249,7 @@ pub fn mutate(rng: &mut Rng, file: &[u8]) -> (Vec<u8>, &'static str) {
         l[16..24].copy_from_slice(&(xl * 4).to_le_bytes());
         return (repage(&l), "header-lengths-consistent-huge");
     }
-    if rng.chance(1, 25) {
+    if rng.chance(1, 12) {
         // a blob whose two length fields lie CONSISTENTLY: the descriptor in the XML and the section length in the
         // blob's own header are both huge and agree, the file is tiny
         if let Some(m) = xml.find(" type=\"Blob\" fileOffset=\"") {
@@ -252,11 +260,13 @@ pub fn mutate(rng: &mut Rng, file: &[u8]) -> (Vec<u8>, &'static str) {
                     if let Some(lp) = xml[after..].find("length=\"") {
                         let ls = after + lp + 8;
                         if let Some(le) = xml[ls..].find('"') {
-                            let huge: u64 = *rng.pick(&[1u64 << 30, (1u64 << 30) + 12, 3u64 << 29]);
+                            // from "a gigabyte" to "does not fit a machine word / an isize" (allocation requests of such
+                            // sizes fail in different ways: refused, aborted, capacity overflow)
+                            let huge: u64 = *rng.pick(&[1u64 << 30, (1u64 << 30) + 12, 3u64 << 29, 1u64 << 40, 1u64 << 62, 1u64 << 63, (1u64 << 63) + 4, u64::MAX - 40, u64::MAX - 19]);
                             let new_xml = format!("{}{}{}", &xml[..ls], huge, &xml[ls + le..]);
                             let lo = p2l(off);
                             if lo + 16 <= l.len() {
-                                let sl = (16 + huge + 3) / 4 * 4;
+                                let sl = (16u64.saturating_add(huge).saturating_add(3)) / 4 * 4;
                                 l[lo + 8..lo + 16].copy_from_slice(&sl.to_le_bytes());
                                 if let Some(f) = with_xml(&repage(&l), new_xml.as_bytes()) {
                                     return (f, "blob-lengths-consistent-huge");
